@@ -23,7 +23,7 @@ os.rmdir(wt)
 env = dict(os.environ, GOFLAGS="-mod=mod", GOPROXY="off")
 res = {"at": time.strftime("%Y-%m-%dT%H:%M:%SZ", time.gmtime())}
 def sh(cmd, cwd=None, **kw):
-    return subprocess.run(cmd, cwd=cwd, env=env, capture_output=True, text=True, **kw)
+    return subprocess.run(cmd, cwd=cwd, env=env, capture_output=True, text=True, errors="replace", **kw)
 try:
     r = sh(["git", "-C", "/repo", "worktree", "add", "--detach", wt, "HEAD"])
     assert r.returncode == 0, r.stderr
